@@ -89,7 +89,7 @@ def scenarios(ctx: Ctx):
         p.i = m.start()
         v = p.value()[1]
         out.append({"ops": list(v["ops"]), "end": v["end"], "acc": v["acc"], "side": None if v["side"] == "none" else (v["side"], MOMENT[v["moment"]]),
-                    "reject": bool(v["reject"]), "moment": v["moment"]})
+                    "reject": False if v["reject"] == "no" else v["reject"], "moment": v["moment"]})
     if len(out) < 500:
         raise MachineryError(f"only {len(out)} scenarios exported")
     return out
@@ -109,7 +109,8 @@ def history(events):
 def terminal_info(events):
     """(terminal notifications with the function reporting each, the full call sites, how a second report relates to the
     first: "race" = the public call (or internal thread) that produced it was already running when the first was made,
-    "sequential" = the call began after the first report - no concurrency is needed to explain it)."""
+    "sequential" = the call began after the first report, or both reports come from one thread - no concurrency is needed
+    to explain it)."""
     terms = [e for e in events if e["ev"] in ("EVT_ABORTED", "EVT_RELEASED", "EVT_REJECTED")]
     short = "+".join(f"{e['ev'][4:]}@{e.get('site', '?').split('<')[0]}" for e in terms) or "none"
     full = "+".join(f"{e['ev'][4:]}@{e.get('site', '?')}" for e in terms) or "none"
@@ -117,7 +118,10 @@ def terminal_info(events):
     if len(terms) > 1:
         e1, e2 = terms[0], terms[1]
         calls = [e for e in events if e["ev"] == "USER_CALL" and e["th"] == e2["th"] and e["seq"] < e2["seq"]]
-        how = "race" if not calls or calls[-1]["seq"] < e1["seq"] else "sequential"
+        if e1["th"] == e2["th"]:
+            how = "sequential"          # both reports by one thread, one after the other
+        else:
+            how = "race" if not calls or calls[-1]["seq"] < e1["seq"] else "sequential"
     return short, full, how
 
 
@@ -185,7 +189,7 @@ def judge(ctx: Ctx, obs, rec, group):
             o["term_" + side], o["sites_" + side], o["how_" + side] = terminal_info(by.get(o[side + "id"], []))
         sc0 = o["sc"]
         # calm: nobody calls abort(), no timeout (0.8 s) can have expired, no thread died
-        calm = ("abort" not in sc0["end"] and sc0["acc"] != "handler_abort" and not (sc0["side"] and sc0["side"][0].endswith("abort"))
+        calm = ("abort" not in sc0["end"] and sc0["acc"] not in ("handler_abort", "notify_abort") and not (sc0["side"] and sc0["side"][0].endswith("abort"))
                 and o["elapsed"] < 0.75 and o["cause"] == "none")
         pair_tr.append({"id": o["id"], "r": o["r"], "a": o["a"], "in_time": o["in_time"], "calm": calm})
         for side, aid, peer in (("r", o["rid"], o["aid"]), ("a", o["aid"], o["rid"])):
